@@ -182,6 +182,40 @@ def damage(text, specs):
             for l, nm in zip(g["lines"], names):
                 if nm == tgt:
                     drop.add(id(l))
+        elif how.startswith("only_atom:"):
+            keep = how.split(":", 1)[1]
+            if keep in names:
+                for l, nm in zip(g["lines"], names):
+                    if nm != keep:
+                        drop.add(id(l))
+        elif how.startswith("sg_near:"):
+            # put this residue's SG next to the SG of another cysteine (three sulfurs in
+            # bonding range: the disulfide partner choice becomes ambiguous)
+            j = int(how.split(":", 1)[1])
+            other = poly[j % len(poly)]
+            osg = next((l for l in other["lines"] if l[12:16].strip() == "SG"), None)
+            mine = next((l for l, nm in zip(g["lines"], names) if nm == "SG"), None)
+            if osg is not None and mine is not None and osg is not mine:
+                x, y, z = _xyz(osg)
+                tgt = (x + 1.4, y + 1.2, z + 0.6)
+                # if the other sulfur is part of a disulfide, sit at about 2 A from BOTH
+                # sulfurs (apex of a triangle over the S-S bond)
+                for g2 in poly:
+                    for l2 in g2["lines"]:
+                        if l2[12:16].strip() == "SG" and l2 is not osg and l2 is not mine:
+                            px, py, pz = _xyz(l2)
+                            d = math.sqrt((px - x) ** 2 + (py - y) ** 2 + (pz - z) ** 2)
+                            if d < 2.5:
+                                mx, my, mz = (x + px) / 2, (y + py) / 2, (z + pz) / 2
+                                bx, by, bz = px - x, py - y, pz - z
+                                # any vector not parallel to the bond, made perpendicular
+                                ax, ay, az = (1.0, 0.0, 0.0) if abs(bx) < 0.9 * d else (0.0, 1.0, 0.0)
+                                k = (ax * bx + ay * by + az * bz) / (d * d)
+                                qx, qy, qz = ax - k * bx, ay - k * by, az - k * bz
+                                qn = math.sqrt(qx * qx + qy * qy + qz * qz) or 1.0
+                                tgt = (mx + 1.75 * qx / qn, my + 1.75 * qy / qn, mz + 1.75 * qz / qn)
+                drop.add(id(mine))
+                add_after[id(mine)] = _set_xyz(mine, *tgt)
         elif how == "ca_only":
             for l, nm in zip(g["lines"], names):
                 if nm != "CA":
